@@ -173,6 +173,35 @@ func (c *ctx) micCase(maxFrm int) {
 		p.skey = p.fkey // byte-identical FNwkSIntKey and SNwkSIntKey (a 1.0 session on a 1.1 stack): the B1 half still binds ConfFCnt / TxDr / TxCh
 	}
 	phy := valToPhy(v, false)
+	if c.rnd.Intn(5) == 0 {
+		// the frame is not built from scratch but derived from a RECEIVED one through the exported fields (an answer or a
+		// forwarded frame re-using the decoded value): decode, then change what a caller may change
+		if b, err := phy.MarshalBinary(); err == nil {
+			var rx lorawan.PHYPayload
+			if rx.UnmarshalBinary(b) == nil {
+				if m, ok := rx.MACPayload.(*lorawan.MACPayload); ok {
+					switch c.rnd.Intn(4) {
+					case 0:
+						m.FHDR.FOpts = nil
+					case 1:
+						m.FPort, m.FRMPayload = nil, nil
+					case 2:
+						m.FHDR.FOpts = nil
+						m.FHDR.FCnt++
+						m.FHDR.FCtrl.ACK = !m.FHDR.FCtrl.ACK
+					default:
+						if len(m.FHDR.FOpts) > 0 {
+							m.FHDR.FOpts = m.FHDR.FOpts[:len(m.FHDR.FOpts)-1]
+						}
+						if m.FPort != nil && *m.FPort != 0 {
+							m.FRMPayload = []lorawan.Payload{&lorawan.DataPayload{Bytes: c.bytesN(c.rnd.Intn(20))}}
+						}
+					}
+					phy = &rx
+				}
+			}
+		}
+	}
 	ev := M{"ev": "setmic", "dir": dirOf(mt)}
 	p.fields(ev)
 	res, _ := observeFast(func() error {
@@ -301,47 +330,69 @@ func (c *ctx) cipherCase() {
 	up := c.rnd.Intn(2) == 0
 	n := c.pick(0, 1, 15, 16, 17, 31, 32, 33, 48, 49, 63, 64, 65, 240, 241, 255, c.rnd.Intn(256), c.rnd.Intn(50))
 	in := c.bytesN(n)
-	// sub-slice with spare capacity: the function may only touch len(in) bytes
-	buf := make([]byte, n+24)
-	copy(buf, in)
-	guard := c.bytesN(24)
-	copy(buf[n:], guard)
-	ev := M{"ev": "encfrm", "key": bs(key[:]), "up": up, "devaddr": bs(da[:]), "fcnt": le32(fcnt), "in": bs(in)}
-	var out []byte
-	res, _ := observeFast(func() error {
-		var err error
-		out, err = lorawan.EncryptFRMPayload(key, up, da, fcnt, append([]byte{}, in...))
-		return err
-	})
-	ev["err"] = res
-	if res == "" {
-		ev["out"] = bs(out)
-		var out2 []byte
-		r2, _ := observeFast(func() error {
+	frmEvent := func(key lorawan.AES128Key, up bool, da lorawan.DevAddr, fcnt uint32, in []byte) M {
+		ev := M{"ev": "encfrm", "key": bs(key[:]), "up": up, "devaddr": bs(da[:]), "fcnt": le32(fcnt), "in": bs(in)}
+		var out []byte
+		res, _ := observeFast(func() error {
 			var err error
-			out2, err = lorawan.EncryptFRMPayload(key, up, da, fcnt, append([]byte{}, out...))
+			out, err = lorawan.EncryptFRMPayload(key, up, da, fcnt, append([]byte{}, in...))
 			return err
 		})
-		ev["err2"] = r2
-		ev["out2"] = bs(out2)
+		ev["err"] = res
+		if res == "" {
+			ev["out"] = bs(out)
+			var out2 []byte
+			r2, _ := observeFast(func() error {
+				var err error
+				out2, err = lorawan.EncryptFRMPayload(key, up, da, fcnt, append([]byte{}, out...))
+				return err
+			})
+			ev["err2"] = r2
+			ev["out2"] = bs(out2)
+		}
+		return ev
 	}
-	c.emit(ev)
-
-	// FOpts function
+	foptsEvent := func(key lorawan.AES128Key, afc, up bool, da lorawan.DevAddr, fcnt uint32, fin []byte) M {
+		ev := M{"ev": "encfopts", "key": bs(key[:]), "afcntdown": afc, "up": up, "devaddr": bs(da[:]), "fcnt": le32(fcnt), "in": bs(fin)}
+		var out []byte
+		res, _ := observeFast(func() error {
+			var err error
+			out, err = lorawan.EncryptFOpts(key, afc, up, da, fcnt, append([]byte{}, fin...))
+			return err
+		})
+		ev["err"] = res
+		if res == "" {
+			ev["out"] = bs(out)
+		}
+		return ev
+	}
+	c.emit(frmEvent(key, up, da, fcnt, in))
 	m := c.pick(0, 1, 7, 14, 15, 16, 17, 30, c.rnd.Intn(16))
 	fin := c.bytesN(m)
 	afc := c.rnd.Intn(2) == 0
-	ev = M{"ev": "encfopts", "key": bs(key[:]), "afcntdown": afc, "up": up, "devaddr": bs(da[:]), "fcnt": le32(fcnt), "in": bs(fin)}
-	res, _ = observeFast(func() error {
-		var err error
-		out, err = lorawan.EncryptFOpts(key, afc, up, da, fcnt, append([]byte{}, fin...))
-		return err
-	})
-	ev["err"] = res
-	if res == "" {
-		ev["out"] = bs(out)
+	c.emit(foptsEvent(key, afc, up, da, fcnt, fin))
+	// neighbours: the same call with exactly ONE parameter changed, back to back, then the first call again - anything the
+	// library remembers between calls under less than all parameters shows here
+	if c.rnd.Intn(3) == 0 {
+		k2, up2, da2, fc2, afc2 := key, up, da, fcnt, afc
+		switch c.rnd.Intn(5) {
+		case 0:
+			k2 = flipKey(key, c.rnd.Intn(128))
+		case 1:
+			up2 = !up
+		case 2:
+			da2[c.rnd.Intn(4)] ^= 1 << uint(c.rnd.Intn(8))
+		case 3:
+			fc2 = fcnt ^ 1<<uint(c.rnd.Intn(32))
+		default:
+			afc2 = !afc
+			k2 = c.key()
+		}
+		c.emit(frmEvent(k2, up2, da2, fc2, in))
+		c.emit(frmEvent(key, up, da, fcnt, in))
+		c.emit(foptsEvent(k2, afc2, up2, da2, fc2, fin))
+		c.emit(foptsEvent(key, afc, up, da, fcnt, fin))
 	}
-	c.emit(ev)
 }
 
 func toIfaceInts(x []int) []interface{} {
@@ -534,6 +585,38 @@ func (c *ctx) joinCase() {
 			r2, _ := observeFast(func() error { return enc.DecryptJoinAcceptPayload(key) })
 			d["err"] = r2
 			d["post"] = phyToVal(enc)
+			c.emit(d)
+		}
+		// a received join-accept is whatever 16 / 32 bytes arrive: ciphertexts chosen by shape (every one of them is the
+		// encryption of some payload | MIC), in particular zero / all-ones runs where a MIC or a field "cannot be"
+		if c.rnd.Intn(2) == 0 {
+			n := c.pick(16, 32)
+			ct := c.bytesN(n)
+			fillv := byte(c.pick(0, 0, 0xff))
+			switch c.rnd.Intn(5) {
+			case 0:
+				for i := range ct {
+					ct[i] = fillv
+				}
+			case 1:
+				for i := n - 4; i < n; i++ {
+					ct[i] = fillv
+				}
+			case 2:
+				for i := 0; i < 4+c.rnd.Intn(n-4); i++ {
+					ct[i] = fillv
+				}
+			case 3:
+				for i := n - 16; i < n; i++ {
+					ct[i] = fillv
+				}
+			}
+			rx := &lorawan.PHYPayload{MHDR: lorawan.MHDR{MType: lorawan.JoinAccept, Major: lorawan.Major(c.pick(0, 0, 0, 1))}, MACPayload: &lorawan.DataPayload{Bytes: append([]byte{}, ct[:n-4]...)}}
+			copy(rx.MIC[:], ct[n-4:])
+			d := M{"ev": "decja", "key": bs(key[:]), "pre": phyToVal(rx), "label": "chosen-ciphertext"}
+			r2, _ := observeFast(func() error { return rx.DecryptJoinAcceptPayload(key) })
+			d["err"] = r2
+			d["post"] = phyToVal(rx)
 			c.emit(d)
 		}
 	} else {
